@@ -646,8 +646,28 @@ EscNext == /\ stack = << >>
            /\ UNCHANGED <<nodes, txt>>
 
 -----------------------------------------------------------------------------
+(* The numeric-literal generator (MODE = "numlit"): the R7RS grammar of decimal reals and rectangular  *)
+(* complex numbers  <sign> <digits> [. <digits>] [e <sign> <digits>]  [ <sign> <ureal> i ].  Every text *)
+(* of the grammar denotes a number - in the source text of a program, for `read` and for                *)
+(* string->number - and a real written with a point or an exponent is inexact.  (The VALUE of inexact   *)
+(* literals is C10's matter; here only "it is a number, of this exactness, and number->string of it is  *)
+(* read back as a number again".)                                                                       *)
+NumSigns == <<"", "+", "-">>
+NumMants == <<"1", "12", "1.5", "0.25">>
+NumExps  == <<"", "e7", "e-7", "e+7", "E-9">>
+NumLitNext ==
+  /\ stack = << >>
+  /\ \E rs \in 1..3, rm \in 1..4, re \in 1..5 :
+        \/ stack' = << [k |-> "numlit", text |-> NumSigns[rs] \o NumMants[rm] \o NumExps[re], cplx |-> FALSE,
+                         inexact |-> (rm >= 3 \/ re >= 2)] >>
+        \/ \E is \in 2..3, im \in 1..4, ie \in 1..5 :
+              stack' = << [k |-> "numlit", cplx |-> TRUE, inexact |-> TRUE,
+                           text |-> NumSigns[rs] \o NumMants[rm] \o NumExps[re] \o NumSigns[is] \o NumMants[im] \o NumExps[ie] \o "i"] >>
+  /\ UNCHANGED <<nodes, txt>>
+
+-----------------------------------------------------------------------------
 Init == stack = << >> /\ nodes = 0 /\ txt = << >>
-Next == CASE MODE = "data" -> DataNext [] MODE = "esc" -> EscNext [] OTHER -> StrNext
+Next == CASE MODE = "data" -> DataNext [] MODE = "esc" -> EscNext [] MODE = "numlit" -> NumLitNext [] OTHER -> StrNext
 Spec == Init /\ [][Next]_vars
 
 TypeOK == /\ nodes \in 0..NODES
@@ -708,5 +728,7 @@ EscCaseOf(r) ==
 
 Emit == CASE MODE = "data" -> (Len(stack) = 1 => PrintT(<<"REPLAY", ToJson(CaseOf(stack[1]))>>))
           [] MODE = "esc"  -> (Len(stack) = 1 => PrintT(<<"REPLAY", ToJson(EscCaseOf(stack[1]))>>))
+          [] MODE = "numlit" -> (Len(stack) = 1 => PrintT(<<"REPLAY", ToJson([kind |-> "numlit", text |-> stack[1].text,
+                                                                  cplx |-> stack[1].cplx, inexact |-> stack[1].inexact])>>))
           [] OTHER -> PrintT(<<"REPLAY", ToJson([kind |-> "text", text |-> txt])>>)
 =============================================================================
